@@ -24,6 +24,10 @@ def string_lit(rnd):
         esc = rnd.choice(['\\n', '\\t', '\\' + q[0], '\\\\x'])
         k = rnd.randint(0, len(body))
         body = body[:k] + esc + body[k:]
+    if rnd.random() < .35 and prefix == 'r' and q != '"""':
+        # a raw string still ends at its own unescaped quote: a backslash before the quote keeps it inside
+        k = rnd.randint(0, len(body))
+        body = body[:k] + rnd.choice(['\\' + q, '\\n', 'a\\' + q + 'b']) + body[k:]
     if rnd.random() < .12 and prefix != 'r' and q != '"""':
         body += '\\\\'          # the literal ends with an escaped backslash
     if prefix == 'f':
